@@ -13,6 +13,12 @@ from vf.sim.device import DeviceConfig, SimDevice
 
 MAX_STEPS = 100000
 
+# Passive direction monitor (C13), fed by EVERY simulated world of the process: message types the independent device decoded from the
+# client's bytes, and message types the client subscribed to.  name -> count; the first offending observation keeps its trace.
+DIRECTION_SENT: dict[str, int] = {}
+DIRECTION_SUBSCRIBED: dict[str, int] = {}
+DIRECTION_FLAGS: list[dict[str, Any]] = []
+
 
 class CallRec:
     __slots__ = ("name", "t_call", "seq_call", "t_ret", "seq_ret", "result", "exc", "outcome", "task", "done",
@@ -121,6 +127,10 @@ class Sim:
         import aiohappyeyeballs.impl as impl
 
         try:
+            self._harvest_direction()
+        except Exception:  # noqa: BLE001
+            pass
+        try:
             # let cancelled leftovers unwind so that no "never awaited"/"pending task destroyed" noise leaks into the next case
             pending = [t for t in asyncio.all_tasks(self.loop) if not t.done()]
             for t in pending:
@@ -143,6 +153,24 @@ class Sim:
             with warnings.catch_warnings():
                 warnings.simplefilter("ignore")
                 self.loop.close()
+
+    def _harvest_direction(self) -> None:
+        for dev in self.devices:
+            for c in dev.conns:
+                for r in c.received:
+                    name = r["name"] or f"#{r['id']}"
+                    DIRECTION_SENT[name] = DIRECTION_SENT.get(name, 0) + 1
+                    m = dev.proto.by_id.get(r["id"])
+                    if (m is None or m.source == "SOURCE_SERVER") and len(DIRECTION_FLAGS) < 20:
+                        DIRECTION_FLAGS.append({"kind": "sent", "type": name, "trace": self.trace(60)})
+        proto = self.devices[0].proto if self.devices else None
+        for v in self.conns:
+            for _seq, names in v.subscribed:
+                for name in names:
+                    DIRECTION_SUBSCRIBED[name] = DIRECTION_SUBSCRIBED.get(name, 0) + 1
+                    m = proto.messages.get(name) if proto is not None else None
+                    if proto is not None and (m is None or m.id is None or m.source == "SOURCE_CLIENT") and len(DIRECTION_FLAGS) < 20:
+                        DIRECTION_FLAGS.append({"kind": "subscribed", "type": name, "trace": self.trace(60)})
 
     # ------------------------------------------------------------------ time / stepping
     @property
